@@ -70,6 +70,23 @@ def qc_case(draw, forced=False):
     return {"nq": nq, "gates": gates, "aps": aps}
 
 
+@st.composite
+def far_case(draw):
+    """one entangling gate between qubits 3 or 4 apart on a 5-qubit register (routing swaps on both sides)"""
+    nq = 5
+    a = draw(st.integers(0, 1))
+    b = a + draw(st.integers(3, 4 - a))
+    if draw(st.booleans()):
+        a, b = b, a
+    gates = []
+    for _ in range(draw(st.integers(0, 3))):
+        gates.append([draw(st.sampled_from(ONE_Q)), [draw(st.integers(0, nq - 1))], []])
+    gates.append([draw(st.sampled_from(["cx", "cz"])), [a, b], []])
+    for _ in range(draw(st.integers(0, 2))):
+        gates.append([draw(st.sampled_from(ROT)), [draw(st.integers(0, nq - 1))], [draw(angle)]])
+    return {"nq": nq, "gates": gates, "aps": draw(st.booleans())}
+
+
 def build_qiskit(case):
     from qiskit import QuantumCircuit
     qc = QuantumCircuit(case["nq"])
@@ -186,5 +203,6 @@ def subs(tier):
     q = tier == "quick"
     return [
         Sub("convert", run_convert, strategy=qc_case(), examples=35 if q else 500),
+        Sub("far-apart-qubits", run_convert, strategy=far_case(), examples=2 if q else 40),
         Sub("convert-forced-patterns", run_convert, strategy=qc_case(forced=True), examples=20 if q else 300),
     ]
